@@ -465,6 +465,28 @@ def main_run(mod, tier: str, seed: int, nshards: int | None, only: str | None) -
                 results.append({"violations": [], "errors": [f"shard {i} died rc={rc}: {tail}"], "stats": {}, "truncated": False})
     tot = merge(results)
 
+    # seconds-long replay tier: the shrunk witnesses of defects that were repaired (corpus/regressions/<id>/*.json) are replayed by every
+    # full run, so a defect that returns is reported with its original minimal input even if the random search misses it this time
+    if not only:
+        import glob as _glob
+
+        rctx = Ctx(pid, tier, seed, 0, 1, load_known(pid)[0])
+        subs_by_name = {s_.name: s_ for s_ in mod.SUBS}
+        n_reg = 0
+        for f in sorted(_glob.glob(os.path.join(VERIF_DIR, "corpus", "regressions", pid, "*.json"))):
+            try:
+                data = json.load(open(f))
+                sub = subs_by_name.get(data.get("sub"))
+                if sub is None:
+                    continue
+                n_reg += 1
+                rctx.run_case(sub, data["case"])
+            except Exception as e:  # noqa: BLE001
+                tot["errors"].append(f"[regression {os.path.basename(f)}] {type(e).__name__}: {e}")
+        tot["violations"] += rctx.violations
+        tot["stats"].setdefault("regression_corpus", {"evaluations": 0, "nt_digests": set(), "classes": Counter(), "samples": [], "known_excluded": 0,
+                                                       "excluded_again": 0, "skipped": 0, "extra": {}})["evaluations"] += n_reg
+
     known, _fixed = load_known(pid)
     new_from_known = []
     known_lines = []
